@@ -263,12 +263,17 @@ Definition lookup (t : fmt) (op : N) : option row :=
 (* ------------------------------------------------------------------ per-format decoders *)
 
 (** the recurring block
-      if o.OperandType == LiteralConstant { inst.ByteSize += 4
+      if o.OperandType == LiteralConstant { d.countLiteralDword(inst)
         if len(buf) < 8 { return error }; o.LiteralConstant = buf[4:8] } *)
-Definition literal (len w1 : N) (o : operand) (size : N) : res (operand * N) :=
+Definition literal (len w1 : N) (o : operand) (size lsize : N) : res (operand * N) :=
   if is_lit o then
-    if len <? 8 then RErr else ROk (o <| o_lit := w1 |>, size + 4)
+    if len <? 8 then RErr else ROk (o <| o_lit := w1 |>, lsize)
   else ROk (o, size).
+
+(** countLiteralDword: inst.ByteSize = inst.Format.ByteSizeExLiteral + 4 (the
+    dword after the instruction word is counted once, however many fields refer
+    to it) *)
+Definition lit_size (i : inst) : N := f_size (i_fmt i) + 4.
 
 (** binary.LittleEndian.Uint32(buf[4:]) — panics when fewer than 8 bytes *)
 Definition read_hi (len w1 : N) : res N := if len <? 8 then RFault else ROk w1.
@@ -277,13 +282,14 @@ Definition cnt64 (width : N) (o : operand) : operand :=
   if width =? 64 then with_count o 2 else o.
 
 Definition decode_sop2 (len w0 w1 : N) (i : inst) : res inst :=
+  let r := i_row i in
   s0 <- getop (extract_bits w0 0 7) ;;
-  '(s0, sz) <- literal len w1 s0 (i_size i) ;;
+  '(s0, sz) <- literal len w1 s0 (i_size i) (lit_size i) ;;
   s1 <- getop (extract_bits w0 8 15) ;;
-  '(s1, sz) <- literal len w1 s1 sz ;;
+  '(s1, sz) <- literal len w1 s1 sz (lit_size i) ;;
   d <- getop (extract_bits w0 16 22) ;;
   let i := i <| i_size := sz |> in
-  if contains "64" (r_name (i_row i)) then
+  if contains "64" (r_name r) then
     ROk (i <| i_src0 := Some (with_count s0 2) |> <| i_src1 := Some (with_count s1 2) |>
            <| i_dst := Some (with_count d 2) |>)
   else ROk (i <| i_src0 := Some s0 |> <| i_src1 := Some s1 |> <| i_dst := Some d |>).
@@ -291,7 +297,7 @@ Definition decode_sop2 (len w0 w1 : N) (i : inst) : res inst :=
 Definition decode_vop1 (len w0 w1 : N) (i : inst) : res inst :=
   let r := i_row i in
   s0 <- getop (extract_bits w0 0 8) ;;
-  '(s0, sz) <- literal len w1 s0 (i_size i) ;;
+  '(s0, sz) <- literal len w1 s0 (i_size i) (lit_size i) ;;
   let s0 := cnt64 (r_src0w r) s0 in
   let dv := extract_bits w0 17 24 in
   d <- (if r_opcode r =? 2 then getop dv else getop (dv + 256)) ;;
@@ -334,11 +340,11 @@ Definition decode_vop2 (len w0 w1 : N) (i : inst) : res inst :=
                       <| i_dst_unused := sdwa_unused (extract_bits sd 11 12) |>
                       <| i_src0_sel := sdwa_sel (extract_bits sd 16 18) |>
                       <| i_src1_sel := sdwa_sel (extract_bits sd 24 26) |>,
-                    new_vreg src0_bits src0_bits 0, true, i_size i + 4)
+                    new_vreg src0_bits src0_bits 0, true, lit_size i)
       else
         s0 <- getop operand_bits ;;
         ROk (i, s0, false, i_size i)) ;;
-  '(s0, sz) <- literal len w1 s0 sz ;;
+  '(s0, sz) <- literal len w1 s0 sz (lit_size i) ;;
   let bits := extract_bits w0 9 16 in
   let s1 := if sdwa && nz (extract_bits sd 31 31) then new_sreg bits bits 0 else new_vreg bits bits 0 in
   let s0 := if sdwa && nz (extract_bits sd 30 30) then new_sreg src0_bits src0_bits 0 else s0 in
@@ -346,7 +352,7 @@ Definition decode_vop2 (len w0 w1 : N) (i : inst) : res inst :=
   let i := i <| i_src0 := Some s0 |> <| i_src1 := Some s1 |> <| i_dst := Some (new_vreg dbits dbits 0) |> in
   if is_madk (r_opcode r) then
     if len <? 8 then RErr
-    else ROk (i <| i_imm := true |> <| i_size := sz + 4 |>
+    else ROk (i <| i_imm := true |> <| i_size := lit_size i |>
                 <| i_src2 := Some (lit_operand 0 <| o_lit := w1 |>) |>)
   else ROk (i <| i_size := sz |>).
 
@@ -390,7 +396,7 @@ Definition decode_smem (len w0 w1 : N) (i : inst) : res inst :=
   let imm := nz (extract_bits w0 17 17) in
   let sbase := N.shiftl (extract_bits w0 0 5) 1 in
   dt <- getop (extract_bits w0 6 12) ;;
-  '(dt, sz) <- literal len w1 dt (i_size i) ;;
+  '(dt, sz) <- literal len w1 dt (i_size i) (lit_size i) ;;
   let dt := match smem_cnt (r_opcode (i_row i)) with Some c => with_count dt c | None => dt end in
   let obits := extract_bits hi 0 19 in
   ROk (i <| i_glc := nz (extract_bits w0 16 16) |>
@@ -401,23 +407,24 @@ Definition decode_smem (len w0 w1 : N) (i : inst) : res inst :=
          <| i_offset := Some (if imm then new_int 0 (Z.of_N obits) else new_sreg obits obits 1) |>).
 
 Definition decode_sopp (w0 : N) (i : inst) : res inst :=
+  let r := i_row i in
   let v := extract_bits w0 0 15 in
   let i := i <| i_simm16 := Some (new_int 0 (Z.of_N v)) |> in
-  if r_opcode (i_row i) =? 12 then
+  if r_opcode r =? 12 then
     ROk (i <| i_vmcnt := extract_bits v 0 3 |> <| i_lkgmcnt := extract_bits v 8 12 |>)
   else ROk i.
 
 Definition decode_vopc (len w0 w1 : N) (i : inst) : res inst :=
   s0 <- getop (extract_bits w0 0 8) ;;
-  '(s0, sz) <- literal len w1 s0 (i_size i) ;;
+  '(s0, sz) <- literal len w1 s0 (i_size i) (lit_size i) ;;
   let bits := extract_bits w0 9 16 in
   ROk (i <| i_size := sz |> <| i_src0 := Some s0 |> <| i_src1 := Some (new_vreg bits bits 0) |>).
 
 Definition decode_sopc (len w0 w1 : N) (i : inst) : res inst :=
   s0 <- getop (extract_bits w0 0 7) ;;
-  '(s0, sz) <- literal len w1 s0 (i_size i) ;;
+  '(s0, sz) <- literal len w1 s0 (i_size i) (lit_size i) ;;
   s1 <- getop (extract_bits w0 8 15) ;;
-  '(s1, sz) <- literal len w1 s1 sz ;;
+  '(s1, sz) <- literal len w1 s1 sz (lit_size i) ;;
   ROk (i <| i_size := sz |> <| i_src0 := Some s0 |> <| i_src1 := Some s1 |>).
 
 Definition decode_vop3b (len w0 w1 : N) (i : inst) : res inst :=
@@ -477,7 +484,7 @@ Definition decode_sop1 (len w0 w1 : N) (i : inst) : res inst :=
   let s0 := cnt64 (r_src0w r) s0 in
   d <- getop (extract_bits w0 16 22) ;;
   let d := cnt64 (r_dstw r) d in
-  '(s0, sz) <- literal len w1 s0 (i_size i) ;;
+  '(s0, sz) <- literal len w1 s0 (i_size i) (lit_size i) ;;
   ROk (i <| i_size := sz |> <| i_src0 := Some s0 |> <| i_dst := Some d |>).
 
 Definition decode_sopk (w0 : N) (i : inst) : res inst :=
@@ -516,14 +523,9 @@ Inductive outcome :=
 
 (** Decode on: the length of the buffer, its first dword and its second dword
     ([w1] is only looked at behind a length test). [fl] = d.formatList. *)
-Definition decode_core (fl : list format) (cdna3 : bool) (len w0 w1 : N) : res inst :=
-  if len <? 4 then RErr else
-  f <- match_format fl w0 ;;
-  let op := retrieve_opcode f w0 in
-  r <- match lookup (f_type f) op with Some r => ROk r | None => RErr end ;;
-  let i := inst0 f r in
-  if len <? i_size i then RErr else
-  match f_type f with
+(** the switch on format.FormatType at the end of Decode *)
+Definition dispatch (t : fmt) (cdna3 : bool) (len w0 w1 : N) (i : inst) : res inst :=
+  match t with
   | SOP2 => decode_sop2 len w0 w1 i
   | SMEM => decode_smem len w0 w1 i
   | VOP2 => decode_vop2 len w0 w1 i
@@ -539,6 +541,15 @@ Definition decode_core (fl : list format) (cdna3 : bool) (len w0 w1 : N) : res i
   | DS => decode_ds len w0 w1 i
   | _ => RFault     (* log.Panicf("unabkle to decode instruction type") *)
   end.
+
+Definition decode_core (fl : list format) (cdna3 : bool) (len w0 w1 : N) : res inst :=
+  if len <? 4 then RErr else
+  f <- match_format fl w0 ;;
+  let op := retrieve_opcode f w0 in
+  r <- match lookup (f_type f) op with Some r => ROk r | None => RErr end ;;
+  let i := inst0 f r in
+  if len <? i_size i then RErr else
+  dispatch (f_type f) cdna3 len w0 w1 i.
 
 Definition to_outcome (r : res inst) : outcome :=
   match r with
